@@ -101,7 +101,11 @@ def target_of(design, target, built):
 
 
 def conv_params(p):
-    return dict(p)
+    """Parameter values are given as they are, except ("pre", mantissa, exponent): a prefixed number."""
+    from decimal import Decimal
+    from hdl21.prefix import Prefix
+
+    return {k: (h.Prefixed(number=Decimal(v[1]), prefix=Prefix.from_exp(v[2])) if isinstance(v, tuple) and v and v[0] == "pre" else v) for k, v in dict(p).items()}
 
 
 def mk_expr(e, ns, ncs, design, built):
